@@ -315,7 +315,8 @@ class Values:
             assert isinstance(stmt, ast.AugAssign)
             old = self.expr(unit, stmt.target, _pred_node(d)) if isinstance(stmt.target, ast.Name) else EMPTY
             rhs = self.expr(unit, stmt.value, d)
-            if any(a[0] in USERISH for a in rhs) or any(a[0] in USERISH for a in old):
+            if any(a[0] in USERISH and not self.is_plain(a) for a in rhs) or \
+                    any(a[0] in USERISH and not self.is_plain(a) for a in old):
                 return frozenset(set(old) | {("result", "augmented")})
             return old or V(("const", "augmented"))
         if "source" in info:  # loop target
